@@ -310,7 +310,7 @@ def curve_shapes(tier):
                 continue
             seen.add((p, tuple(kv)))
             out.extend(variants([kv], [p], tier, 1))
-    return out + tall_curve_shapes(tier)
+    return out + tall_curve_shapes(tier) + variety_shapes(tier, pdims=(1,))
 
 
 def tall_curve_shapes(tier):
@@ -335,6 +335,62 @@ def tall_surface_shapes(tier):
             kvs, degs = ([kv, skv], [p, sp]) if order == 0 else ([skv, kv], [sp, p])
             rat = (i + order) % 2 == 1
             out.append(A.shape_desc(kvs, degs, rat, 3, 'coded', 'coded', tall=True))
+    return out
+
+
+def variety_shapes(tier, pdims=(1, 2, 3), dims=(4, 5), types=True):
+    """the data-variety slice: a few small knot structures x everything that leaves the world of small integer coordinates
+    in 2-D/3-D lists, dyadic knots in [0,1] and weights between 1/4 and 8 - negative / fractional / huge / tiny / zero /
+    coincident / collinear coordinates, dimension 4 and 5 (1 is rejected by the library), tuples and ints as input types, weights < 0.1 and > 100 or all
+    equal, decimal and 1/7 knots, knot ranges [-5,-1], [100,200], [0,1e-3].  One respect at a time."""
+    q = tier == 'quick'
+    out = []
+    base = {1: [([A.clamped_kv(2, [(0.5, 1)])], [2]), ([A.clamped_kv(3, [(0.25, 1), (0.5, 2)])], [3])],
+            2: [([A.clamped_kv(2, [(0.5, 1)]), A.clamped_kv(1, [(0.25, 1)])], [2, 1]), ([A.clamped_kv(1, []), A.clamped_kv(3, [(0.5, 2)])], [1, 3])],
+            3: [([A.clamped_kv(1, []), A.clamped_kv(2, [(0.5, 1)]), A.clamped_kv(1, [(0.25, 1)])], [1, 2, 1])]}
+    for pd in pdims:
+        for kvs, degs in (base[pd][:1] if q and pd > 1 else base[pd]):
+            lowdim = 3 if pd == 3 else 2
+            for net in A.VARIETY_NETS:
+                for rat in (False, True):
+                    out.append(A.shape_desc(kvs, degs, rat, 3, net, 'coded', variety='net:' + net))
+            for wk in A.VARIETY_WEIGHTS:
+                out.append(A.shape_desc(kvs, degs, True, 3, 'coded', wk, variety='weights:' + wk))
+                out.append(A.shape_desc(kvs, degs, True, lowdim, 'negfrac', wk, variety='weights:' + wk))
+            for dim in dims:
+                for rat in (False, True):
+                    out.append(A.shape_desc(kvs, degs, rat, dim, 'coded', 'coded', variety='dim:%d' % dim))
+            if types:
+                for it in ('tuples', 'ints'):
+                    for rat in (False, True):
+                        out.append(A.shape_desc(kvs, degs, rat, 3, 'coded', 'ones' if it == 'ints' else 'coded', variety='types:' + it,
+                                                input_types=it))
+                    # kept as given (normalize_kv=False): the object then holds the caller's tuple / ints themselves
+                    out.append(A.shape_desc([A.affine_kv(k, 1.0, 2.0) for k in kvs], degs, it == 'tuples', 3, 'coded', 'coded',
+                                            variety='types:' + it, input_types=it, normalize_kv=False))
+        # knot variety: per direction the same odd vector family (first direction odd, the others small and dyadic)
+        p0 = base[pd][0][1][0]
+        for kv, norm in A.odd_kvs(p0, 1 if q else 2):
+            kvs = [kv] + [list(k) for k in base[pd][0][0][1:]]
+            if not norm:
+                kvs = [kv] + [A.affine_kv(k, 1.0, 2.0) for k in base[pd][0][0][1:]]
+            for rat in (False, True):
+                out.append(A.shape_desc(kvs, base[pd][0][1], rat, 3, 'coded', 'coded', normalize_kv=norm, variety='knots'))
+    return out
+
+
+def tiny_span_shapes(tier):
+    """knot spans of one ulp, 1e-9, 1e-8 and 2^-40 (valid non-decreasing vectors; evaluation only - knot operations on
+    such vectors are the business of the library's multiplicity tolerance, see the near-knot findings)"""
+    out = []
+    for p in (1, 2, 3):
+        for interior in ([0.3, 0.1 + 0.2], [1e-9, 0.5], [0.5, 0.5 + 1e-8], [0.25, 0.25 + 2.0 ** -40, 0.75]):
+            kv = [0.0] * (p + 1) + interior + [1.0] * (p + 1)
+            for rat in (False, True):
+                out.append(A.shape_desc([kv], [p], rat, 3, 'coded', 'coded', variety='tiny_span'))
+        kv = [0.0] * (p + 1) + [0.3, 0.1 + 0.2] + [1.0] * (p + 1)
+        out.append(A.shape_desc([kv, A.clamped_kv(1, [(0.5, 1)])], [p, 1], p == 2, 3, 'coded', 'coded', variety='tiny_span'))
+        out.append(A.shape_desc([A.clamped_kv(2, []), kv], [2, p], p != 2, 3, 'coded', 'coded', variety='tiny_span'))
     return out
 
 
@@ -393,7 +449,7 @@ def surface_shapes(tier):
                 if len(ku) - pu == len(kv) - pv:
                     continue            # pairwise different sizes: any u/v mix-up changes an index
                 out.extend(variants([ku, kv], [pu, pv], tier, 2))
-    return out + tall_surface_shapes(tier)
+    return out + tall_surface_shapes(tier) + variety_shapes(tier, pdims=(2,))
 
 
 def volume_shapes(tier):
@@ -412,7 +468,7 @@ def volume_shapes(tier):
                 continue
             vs = variants(list(kvs), list(degs), tier, 3)
             out.extend(vs if max(degs) <= 2 else vs[:2])
-    return out
+    return out + variety_shapes(tier, pdims=(3,))
 
 
 def shape_weight(d):
